@@ -91,9 +91,19 @@ def generate() -> None:
     b += "def defaultAttrs : Attrs := " + lattrs(sbase.DEFAULT_ATTRS) + "\n\n"
     b += "/-- styles/style.py _EMPTY_ATTRS -/\n"
     b += "def emptyAttrs : Attrs := " + lattrs(sstyle._EMPTY_ATTRS) + "\n\n"
+    # behaviour probe: is the text after '#' validated as hexadecimal?
+    def rejects(t):
+        try:
+            sstyle.parse_color(t)
+            return False
+        except ValueError:
+            return True
+    validated = rejects("#zzzzzz") and rejects("#zzz") and rejects("#+12345") and rejects("#0x1234")
+    b += "/-- probe of styles/style.py parse_color: '#zzzzzz', '#zzz', '#+12345', '#0x1234' raise ValueError -/\n"
+    b += "def hexValidated : Bool := " + ("true" if validated else "false") + "\n\n"
     b += ("def tables : Tables :=\n  { ansiNames := ansiNames, aliases := aliases, named := named, fg := fg, bg := bg,\n"
           "    ansiRgb := ansiRgb, pal256 := pal256, decFg := decFg, decBg := decBg, dec256 := dec256,\n"
-          "    defaultAttrs := defaultAttrs, emptyAttrs := emptyAttrs }\n")
+          "    defaultAttrs := defaultAttrs, emptyAttrs := emptyAttrs, hexValidated := hexValidated }\n")
     b += "\nend Ptk.Gen.C19\n"
     G.write("C19.lean", b.replace("-- GENERATED by harness/gen_tables.py", "-- GENERATED by harness/gen_c19.py"))
 
